@@ -121,6 +121,27 @@ package simplefixgo
 //@   ensures[C19,C05,C06,C07,C08,C10,C14,C15,C16] @transmitted imp(err == nil, outN == old(outN) + 1 && sel(outAt, old(outN)) == mBytes(msg))
 //@   ensures[C19,C05,C06,C07,C08,C10,C14,C15,C16] @onlyifaccepted imp(err == nil, ok1 && ok2 && berr == nil)
 //@   ensures[C19,C05,C06,C07,C08,C10,C14,C15,C16] @failed imp(err != nil, outN == old(outN) && outAt == old(outAt))
+//@   ensures[C19,C10,C08,C05] @earlier imp(j < old(outN), sel(outAt, j) == old(sel(outAt, j)))
+
+// SendBatch (retransmissions): every message of the batch goes through send, in order,
+// so it is offered to the outgoing handlers like any other outbound message and is
+// transmitted unchanged; the first failure stops the batch.
+//@ spec allNonNil(ms []SendingMessage) bool
+//@ axiom allNonNil_at(ms []SendingMessage, k int): requires allNonNil(ms) && 0 <= k && k < len(ms) ensures nth(ms, k) != nil
+//@ func (h *DefaultHandler) SendBatch(messages []SendingMessage) (err error)
+//@   requires h != nil && h.ctx != nil && h.outgoingHandlers.HandlerPool != nil && allNonNil(messages)
+//@   modifies callN, callAt, callRet, outN, outAt
+//@   forall j int
+//@   call send#1:
+//@     assert[C19,C10,C08,C05] @viasend arg1 == nth(messages, iter)
+//@     inst j = j
+//@     inst j = old(outN) + j
+//@   ensures[C19,C10,C08,C05] @all imp(err == nil, outN == old(outN) + len(messages))
+//@   ensures[C19,C10,C08,C05] @each imp(err == nil && 0 <= j && j < len(messages), sel(outAt, old(outN) + j) == mBytes(nth(messages, j)))
+//@   loop 1:
+//@     lemma allNonNil_at(messages, iter)
+//@     invariant[C19,C10,C08,C05] @count 0 <= iter && iter <= len(messages) && outN == old(outN) + iter
+//@     invariant[C19,C10,C08,C05] @sofar imp(0 <= j && j < iter, sel(outAt, old(outN) + j) == mBytes(nth(messages, j)))
 
 //@ func (h *DefaultHandler) Send(message SendingMessage) (err error)
 //@   requires h != nil && h.ctx != nil && message != nil && h.outgoingHandlers.HandlerPool != nil
